@@ -679,7 +679,71 @@ def r20(ctx):
         raise AnalysisBroken('C03.R20: no store to m_generateSynInterval in handleReceive')
 
 
+def r22(ctx):
+    ctx.rule('C03.R22', 'every master waits its own time before it generates SYN: the interval of silence after which a handler '
+             'with SYN generation starts sending AUTO-SYN (constructor initialiser of m_generateSynInterval, evaluated from '
+             'the typed AST for all 25 master addresses with the master numbering that C03.R16 decides) grows strictly with '
+             'the master number by at least the 10 ms the protocol staggers the masters with, lies above the AUTO-SYN period '
+             '(the interval a handler falls back to once it is the generator), and is 0 with generation switched off; a cap or '
+             'a common value lets several masters (or ebusd and the regular generator) send SYN at the same moment, before '
+             'their own interval of silence has passed', minimum=1)
+    import tinyeval
+    import rules.C19 as c19
+    fb = ctx.fb
+    ctors = [f for f in fb.functions if f.name == 'ebusd::DirectProtocolHandler::DirectProtocolHandler' and
+             any(i.get('member') == 'm_generateSynInterval' for i in f.inits)]
+    if not ctors:
+        raise AnalysisBroken('C03.R22: constructor initialiser of m_generateSynInterval not found')
+    f = ctors[0]
+    ctx.touch(f)
+    init = [i['init'] for i in f.inits if i.get('member') == 'm_generateSynInterval'][0]
+    hr = fb.fn(A.HR)
+    period = [hr.val(rhs) for nid, d, rhs, op, lhs in hr.assignments() if lhs is not None and hr.key(lhs) == 'this.m_generateSynInterval'
+              and rhs is not None and hr.val(rhs)]
+    if not period:
+        raise AnalysisBroken('C03.R22: the AUTO-SYN period a generator falls back to was not found in handleReceive')
+    parts = {0x0: 1, 0x1: 2, 0x3: 3, 0x7: 4, 0xF: 5}
+
+    def number(a):
+        lo, hi = parts.get(a & 0x0F), parts.get((a & 0xF0) >> 4)
+        return 5 * (lo - 1) + hi if lo and hi else 0
+    masters = sorted((number(a), a) for a in range(256) if number(a))
+    cfg = None
+    for x in f.walk(init):
+        v = f.nodes[x]
+        if v['k'] == 'MemberExpr' and not v.get('this') and v.get('name') in ('generateSyn', 'ownAddress'):
+            cfg = f.key(x).rsplit('.', 1)[0]
+    if cfg is None:
+        raise AnalysisBroken('C03.R22: the initialiser does not read the configuration')
+    vals = []
+    try:
+        for num, a in masters:
+            m = tinyeval.Machine(f, {cfg + '.generateSyn': 1, cfg + '.ownAddress': a}, [])
+            m.free = {'ebusd::getMasterNumber': number}
+            vals.append((num, a, m.rv(init)))
+        m = tinyeval.Machine(f, {cfg + '.generateSyn': 0, cfg + '.ownAddress': 0x31}, [])
+        m.free = {'ebusd::getMasterNumber': number}
+        off = m.rv(init)
+    except tinyeval.Unknown as e:
+        raise AnalysisBroken('C03.R22: initialiser of m_generateSynInterval not evaluable (%s)' % e)
+    bad = []
+    for (n1, a1, v1), (n2, a2, v2) in zip(vals, vals[1:]):
+        if v2 - v1 < 10 and len(bad) < 3:
+            bad.append('master %02x (number %d) waits %d ms, master %02x (number %d) %d ms' % (a1, n1, v1, a2, n2, v2))
+    if vals[0][2] <= max(period):
+        bad.append('master %02x waits %d ms, not above the AUTO-SYN period of %d ms' % (vals[0][1], vals[0][2], max(period)))
+    if off != 0:
+        bad.append('interval %d with SYN generation switched off' % off)
+    ctx.ob('C03.R22', f, init, not bad, 'start-up AUTO-SYN interval per master',
+           'staggered by at least 10 ms in the order of the master numbers (%d..%d ms): %s%s' % (
+               vals[0][2], vals[-1][2], not bad, '' if not bad else ' - ' + '; '.join(bad)))
+
+
 def run(ctx):
+    r22(ctx)
+    import rules.common as _cm
+    ctx.rule('C03.R21', "a value is compared with a constant in the domain of its own type: in the sources of this property every comparison of a variable, member, element or call result with an integer constant (==, !=) has the constant inside the value range of the operand's own integer type before promotion - a symbol held in a signed char never equals 0xA9/0xAA/0xFE, so the escape, SYN or broadcast test behind it is dead for exactly the symbols it exists for", minimum=60)
+    _cm.compare_domain_rule(ctx, 'C03.R21', lambda f: f.relfile.startswith(('src/lib/ebus/protocol', 'src/lib/ebus/symbol.', 'src/lib/ebus/device')), 60)
     r20(ctx)
     r19(ctx)
     r17(ctx)
